@@ -33,6 +33,25 @@ from .. import common as C
 HEADER = ("From Coq Require Import List Bool Arith. Import ListNotations.\n"
           "Require Import NV.C27.Model.\n")
 VARIANT = os.environ.get("C27_VARIANT", "fixed")       # development aid only: `orig` models the pinned tree
+PID = os.getpid()
+
+
+def scratch(name):
+    """per-process scratch name (several checks of the same property may run at the same time)"""
+    return "%s_p%d" % (name, PID)
+
+
+def cleanup_scratch(prop):
+    import glob
+    d = C.run_dir(prop)
+    for f in glob.glob(os.path.join(d, "*_p%d*" % PID)) + glob.glob(os.path.join(d, ".*_p%d*" % PID)):
+        try:
+            if os.path.isdir(f):
+                shutil.rmtree(f)
+            else:
+                os.remove(f)
+        except OSError:
+            pass
 
 
 # --------------------------------------------------------------------------------------------------
@@ -181,11 +200,11 @@ def run_once(cfg, total, resume, outdir, known_dirs):
     rec.first = last0 + 1 if (resume and last0 is not None) else 0
     files0 = listing(outdir)
     others = {d: listing(d) for d in known_dirs if d != outdir}
-    scratch = os.path.join(C.run_dir("C27"), "cwd")       # relative writes of the driver land here
-    os.makedirs(scratch, exist_ok=True)
-    cwd0 = listing(scratch)
+    scratch_dir = os.path.join(C.run_dir("C27"), scratch("cwd"))       # relative writes of the driver land here
+    os.makedirs(scratch_dir, exist_ok=True)
+    cwd0 = listing(scratch_dir)
     old_cwd = os.getcwd()
-    os.chdir(scratch)
+    os.chdir(scratch_dir)
     stale = getattr(M, "_output_directory", None) is not None
     stale_all = getattr(M, "_save_strategy", None) == "all"
     depth0 = len(R._sseq)
@@ -225,7 +244,7 @@ def run_once(cfg, total, resume, outdir, known_dirs):
         for f, sig in after.items():
             if before.get(f) != sig:
                 foreign.append(f)
-    cwd1 = listing(scratch)
+    cwd1 = listing(scratch_dir)
     o["cwd_writes"] = sorted(f for f, sig in cwd1.items() if cwd0.get(f) != sig)
     o["foreign"] = sorted(foreign)
     if err is None:
@@ -451,7 +470,7 @@ class C27(C.Check):
 
     def execute(self, ctx, kind, cfg, tag):
         """Run one configuration (one or two calls).  Returns a list of stage records."""
-        root = os.path.join(ctx.run_dir(), "out")
+        root = os.path.join(ctx.run_dir(), scratch("out"))
         os.makedirs(root, exist_ok=True)
         outdir = os.path.join(root, tag) if cfg["outdir"] else None
         if outdir and os.path.isdir(outdir):
@@ -489,7 +508,7 @@ class C27(C.Check):
         t0 = time.time()
         rng = ctx.rng(27)
         self.dirs = []
-        root = os.path.join(ctx.run_dir(), "out")
+        root = os.path.join(ctx.run_dir(), scratch("out"))
         if os.path.isdir(root):
             shutil.rmtree(root)
         todo = [(c.get("kind", "valid"), c["cfg"]) for c in ctx.corpus()]
@@ -506,7 +525,7 @@ class C27(C.Check):
         for r in self.obs:
             t = check_term(r["cfg"], r["total"], r["resume"], r["outdir"], r["obs"])
             checks.append("false" if t is None else t)
-        bad = C.eval_cases(self.prop, "corr", HEADER, checks)
+        bad = C.eval_cases(self.prop, scratch("corr"), HEADER, checks)
         for i in bad[:4]:
             r = self.obs[i]
             o = dict(r["obs"])
@@ -547,6 +566,7 @@ class C27(C.Check):
                 seen.add(key)
                 res.add_failing(sig, what, {"kind": r["kind"], "cfg": r["cfg"], "signature": sig})
         res.coverage["impl_property_evaluations"] = n
+        cleanup_scratch(self.prop)
 
     def replay(self, ctx, rp):
         import logging
@@ -557,7 +577,7 @@ class C27(C.Check):
         ift.logger.setLevel(logging.ERROR)
         warnings.filterwarnings("ignore")
         self.dirs = []
-        root = os.path.join(ctx.run_dir(), "out")
+        root = os.path.join(ctx.run_dir(), scratch("out"))
         if os.path.isdir(root):
             shutil.rmtree(root)
         if rp.get("kind") == "no-failing-input-found":
@@ -568,7 +588,7 @@ class C27(C.Check):
                 d = b["detail"]
                 recs = self.execute(ctx, d["kind"], d["cfg"], "replay")
                 checks = [check_term(r["cfg"], r["total"], r["resume"], r["outdir"], r["obs"]) or "false" for r in recs]
-                still = still or bool(C.eval_cases(self.prop, "replay", HEADER, checks))
+                still = still or bool(C.eval_cases(self.prop, scratch("replay"), HEADER, checks))
             return still
         inp = rp["input"]
         cfgs = [inp["cfg"]]
